@@ -197,4 +197,12 @@ def orderWMedian (maxiter : Nat) (g : G) : M (G × Nat) := do
   let g := { g with nodes := g.nodes.mapIdx fun i nd => { nd with pos := bestp.getD i 0 } }
   pure (sortLayersByPos g, bestx)
 
+/-- The ordering phase as the composed model uses it: of the state the heuristic returns, only what an ordering may change — the
+    positions and the layer lists — is taken over; everything else is the incoming state. (For the code as it is this is the same
+    function as `orderWMedian`: the correspondence key `T:phase3-wmedian` compares THIS function with the real phase on every traced
+    run, so an ordering phase that touched anything else would show as a difference.) -/
+def orderWMedianP (maxiter : Nat) (g : G) : M (G × Nat) := do
+  let (g', x) ← orderWMedian maxiter g
+  pure ({ g with nodes := g.nodes.mapIdx fun i nd => { nd with pos := (g'.node i).pos }, layers := g'.layers }, x)
+
 end Autog
